@@ -1116,6 +1116,25 @@ def prelude():
     _batching._debug_batch_state.batches.clear()
 
 
+@A()
+def _carry_task(handle, out):
+    try:
+        v = yield handle
+        out.append(("ok", v))
+    except BaseException as e:      # the stored failure of the earlier computation, delivered at this yield
+        out.append(("exc", e))
+    return None
+
+
+def carry_probe(handle):
+    """a later computation awaits (bare yield) a task that an earlier computation already completed: it must receive
+    that task's stored value, or have its stored error raised at the yield"""
+    out = []
+    with sink.capture_print():
+        _carry_task(handle, out)
+    return out[0] if out else ("nothing",)
+
+
 def interlude():
     """what ordinary starting code does between two computations: with-blocks entered and left outside any task"""
     v = AsyncScopedValue("interlude")
